@@ -800,6 +800,17 @@ fn check_facts(n: &SyntaxNode, parent: Option<&SyntaxNode>, in_raw: bool, is_roo
     if k == K::FuncCall && !(ch.len() == 2 && is_expr(ch[0]) && ch[1].kind() == K::Args) {
         out.push(format!("PF12: FuncCall with children {:?}", ch.iter().map(|c| c.kind()).collect::<Vec<_>>()));
     }
+    // PF15: a content block / strong / emphasis is its two markers around one Markup
+    if matches!(k, K::ContentBlock | K::Strong | K::Emph) {
+        let (o, c) = match k {
+            K::ContentBlock => (K::LeftBracket, K::RightBracket),
+            K::Strong => (K::Star, K::Star),
+            _ => (K::Underscore, K::Underscore),
+        };
+        if !(ch.len() == 3 && ch[0].kind() == o && ch[1].kind() == K::Markup && ch[2].kind() == c) {
+            out.push(format!("PF15: {k:?} with children {:?}", ch.iter().map(|c| c.kind()).collect::<Vec<_>>()));
+        }
+    }
     // PF13
     if matches!(k, K::Math | K::Markup) {
         for c in &ch {
